@@ -134,6 +134,8 @@ DEFAULTS = {name: vals[0] for name, vals in FACTORS}
 def cfg_of(row):
     c = {k: row[k] for k in ("sample", "resample", "cluster_every", "n_max_clusters", "split_threshold", "vv", "n_steps", "n_max_steps", "boundary", "target", "n_particles", "ess_ratio", "callable")}
     c["n_total"] = 4 * row["n_particles"]
+    if row.get("max_iters"):
+        c["max_iters"] = row["max_iters"]
     clu = row["clu"]
     c["clustering"] = clu != "off"
     c["normalize"] = clu != "on-nonorm"
@@ -234,7 +236,7 @@ def run_valid(case):
     res.states += 1
     res.traces += 1
     res.trans += 1
-    nondef = sorted(k for k in row if row[k] != DEFAULTS[k])
+    nondef = sorted(k for k in row if row[k] != DEFAULTS.get(k, row[k]))
     res.outcome(tuple(sorted((k, repr(v)) for k, v in row.items())), nontrivial=len(nondef) >= 2)
     if fail is None:
         return res
@@ -258,7 +260,7 @@ def run_valid(case):
     f3 = _attempt(cur, case["base"])
     if f3 is None or _sig(f3) != sig:
         cur, f3 = dict(row), fail
-    minimal = ",".join(f"{k}={cur[k]!r}" for k in sorted(cur) if cur[k] != DEFAULTS[k])
+    minimal = ",".join(f"{k}={cur[k]!r}" for k in sorted(cur) if cur[k] != DEFAULTS.get(k, cur[k]))
     stage, what, _ = f3
     msg = f"valid configuration [{minimal or 'defaults'}] failed at {stage}: {what!r}"
     res.violate(f"valid:{sig}:{minimal}", msg, {"kind": "valid", "row": cur, "base": case["base"], "no_minimise": True})
@@ -354,6 +356,9 @@ def plan(ctx):
     if cov != tot:
         ctx.cap(f"covering array covers {cov}/{tot}")
     cases = [{"kind": "valid", "row": r, "base": ctx.seed + 100 * b} for r in rows for b in range(2)]
+    # scale: legal values far from the small ones of the array (a long warm-up: ess_ratio in the hundreds; hundreds of particles; long dynamic runs)
+    for over in ({"ess_ratio": 120.0, "n_particles": 4, "clu": "off"}, {"n_particles": 600, "ess_ratio": 0.25}):
+        cases.append({"kind": "valid", "row": dict(DEFAULTS, max_iters=900, **over), "base": ctx.seed, "no_minimise": True})
     agg = ctx.explore("valid-covering-array", cases)
     ctx.res.sample({"valid_row": rows[0]})
     opt_key = {"n_dim": "d", "volume_variation": "vv", "pool": "pool_n"}
